@@ -40,6 +40,7 @@ type Frame struct {
 	dry     int
 	curLoop *loopInfo
 	clauseIdents map[string]bool
+	evalPoint    *ssa.BasicBlock // where a per-iteration / call-site clause is evaluated
 }
 
 type exitRec struct {
@@ -349,6 +350,12 @@ func (vc *VC) newAlloc(st *State, t types.Type, escaped bool) *allocInfo {
 		vc.assume(st, sNot(sEq(r, o.ref)))
 	}
 	vc.set(st, allocKey, allocSort, sStore(al, r, "true"))
+	// a new object starts with clean ghost state (not locked, not done, nothing sent, open)
+	for _, g := range []string{"held", "once_done", "wg", "chanclosed", "chansent", "chanrecv", "chanlen"} {
+		key := "ghost." + g
+		ga := vc.get(st, key, "(Array Int Int)")
+		vc.set(st, key, "(Array Int Int)", sStore(ga, r, "0"))
+	}
 	vc.allocs = append(vc.allocs, a)
 	return a
 }
@@ -421,11 +428,21 @@ func (fr *Frame) allocEscapes(v ssa.Value, seen map[ssa.Value]bool) bool {
 			return true
 		case *ssa.MakeClosure:
 			// fine if the closure is only called/deferred directly (we inline it) and the
-			// free variable does not escape inside
+			// free variable does not escape inside; also fine if the closure runs elsewhere (a
+			// goroutine) but only ever reads the captured variable
+			cfn := in.Fn.(*ssa.Function)
 			if fr.closureEscapes(in) {
+				ro := true
+				for i, b := range in.Bindings {
+					if b == v && !freeVarReadOnly(cfn.FreeVars[i], map[ssa.Value]bool{}) {
+						ro = false
+					}
+				}
+				if ro {
+					continue
+				}
 				return true
 			}
-			cfn := in.Fn.(*ssa.Function)
 			for i, b := range in.Bindings {
 				if b == v {
 					if fr.allocEscapes(cfn.FreeVars[i], seen) {
@@ -445,6 +462,37 @@ func (fr *Frame) allocEscapes(v ssa.Value, seen map[ssa.Value]bool) bool {
 		}
 	}
 	return false
+}
+
+// freeVarReadOnly: inside the closure (and closures nested in it) the captured variable is only loaded
+func freeVarReadOnly(v ssa.Value, seen map[ssa.Value]bool) bool {
+	if seen[v] {
+		return true
+	}
+	seen[v] = true
+	refs := v.Referrers()
+	if refs == nil {
+		return false
+	}
+	for _, r := range *refs {
+		switch in := r.(type) {
+		case *ssa.DebugRef:
+		case *ssa.UnOp:
+			if in.Op != token.MUL {
+				return false
+			}
+		case *ssa.MakeClosure:
+			cfn := in.Fn.(*ssa.Function)
+			for i, b := range in.Bindings {
+				if b == v && !freeVarReadOnly(cfn.FreeVars[i], seen) {
+					return false
+				}
+			}
+		default:
+			return false
+		}
+	}
+	return true
 }
 
 func (fr *Frame) closureEscapes(mc *ssa.MakeClosure) bool {
